@@ -105,7 +105,7 @@ def proof_stage(prop, allowed_axioms=()):
     text = open(src, encoding="utf-8").read()
     theorems = re.findall(r"^\s*(?:Theorem|Corollary)\s+(\w+)", text, re.M)
     printed = re.findall(r"^\s*Print Assumptions\s+(\w+)\s*\.", text, re.M)
-    rc, out = sh("timeout 600 coqc -Q . V -w -notation-overridden,-deprecated-hint-without-locality,-ambiguous-paths Props/%s.v" % prop, cwd=COQ)
+    rc, out = sh("timeout 600 coqc -Q . V -w -notation-overridden,-deprecated-hint-without-locality,-ambiguous-paths,-abstract-large-number Props/%s.v" % prop, cwd=COQ)
     res = {"theorems": theorems, "ok": [], "failed": [], "axioms": {}, "log": out[-3000:]}
     if rc != 0:
         res["failed"] = theorems
@@ -142,7 +142,7 @@ def build_harness():
 
 def run_shard(path):
     d = os.path.dirname(path)
-    rc, out = sh("timeout 1200 coqc -Q %s V -w -notation-overridden,-deprecated-hint-without-locality,-ambiguous-paths %s" % (COQ, os.path.basename(path)), cwd=d)
+    rc, out = sh("timeout 1200 coqc -Q %s V -w -notation-overridden,-deprecated-hint-without-locality,-ambiguous-paths,-abstract-large-number %s" % (COQ, os.path.basename(path)), cwd=d)
     if rc != 0:
         return {"error": out[-2000:], "mism": [], "bad": []}
     m1 = re.search(r"R_mism\s*=\s*(.*?)\n\s*:\s*list", out, re.S)
@@ -158,7 +158,7 @@ def run_shard(path):
 def evaluate_cases(outdir):
     shards = sorted(f for f in os.listdir(outdir) if re.match(r"cases_\d+\.v$", f))
     res = {"mism": [], "bad": [], "errors": []}
-    with cf.ThreadPoolExecutor(max_workers=16) as ex:
+    with cf.ThreadPoolExecutor(max_workers=8) as ex:
         for r in ex.map(run_shard, [os.path.join(outdir, s) for s in shards]):
             res["mism"] += r["mism"]
             res["bad"] += r["bad"]
